@@ -42,6 +42,10 @@ type LoopSpec struct {
 	// edge (no break, no return from the body)
 	Complete    bool
 	CompleteTag string
+	// Always: `loop k always` -- every return of the function is dominated by the loop's header (no
+	// path leaves the function without having gone through the loop)
+	Always    bool
+	AlwaysTag string
 	// programmatic clauses supplied by a plug-in (same role as the textual ones)
 	InvFns []func(env *Env, phis []*ssa.Phi) string
 	ModFns []func(env *Env) string
@@ -222,7 +226,7 @@ func parseContracts(src, pkgName, file string) ([]*Contract, map[string]*define,
 			lastAppend = nil
 		case "loop":
 			f := strings.Fields(rest)
-			if len(f) < 3 && !(len(f) == 2 && f[1] == "complete") {
+			if len(f) < 3 && !(len(f) == 2 && (f[1] == "complete" || f[1] == "always")) {
 				return nil, nil, fmt.Errorf("%s:%d: loop <n> invariant|modifies|decreases <expr>", file, line)
 			}
 			n, err := strconv.Atoi(f[0])
@@ -249,6 +253,9 @@ func parseContracts(src, pkgName, file string) ([]*Contract, map[string]*define,
 				lastAppend = nil
 			case "complete":
 				ls.Complete, ls.CompleteTag = true, curTag
+				lastAppend = nil
+			case "always":
+				ls.Always, ls.AlwaysTag = true, curTag
 				lastAppend = nil
 			case "reaches":
 				lr := LoopReach{What: expr, Line: line, Tag: curTag}
@@ -602,6 +609,9 @@ func (c *Contract) filterProperty(prop string) {
 		l.Reaches = rs
 		if l.Complete && !tagHas(l.CompleteTag, prop) {
 			l.Complete = false
+		}
+		if l.Always && !tagHas(l.AlwaysTag, prop) {
+			l.Always = false
 		}
 		l.Modifies = keep(l.Modifies)
 	}
